@@ -22,6 +22,8 @@ _ctx = {}
 
 def setup(prop, repo):
     """Boot the world process: patch, import sempler from `repo` (never runs an op here)."""
+    import warnings
+    warnings.simplefilter("ignore")        # numpy / pandas warnings of the system under test are not verdicts
     S = boot.boot(repo, with_peer=(prop == "C19"))
     mod = importlib.import_module(MODS[prop])
     _ctx.update(prop=prop, S=S, mod=mod, repo=repo)
